@@ -76,9 +76,11 @@ def stages(sources, tools, work, want=("tok", "past", "code", "eval", "vm", "sem
         rcs = []
         if "tok" in want:
             rcs.append(_pipe([tools["lexobs"], "lines"], hx, pre + "tok_go"))
-            rcs.append(_pipe([tools["lexobs"], "lines-in"], hx, pre + "runes"))
-            rcs.append(_pipe([tools["model_lexer"]], pre + "runes", pre + "tok_mo"))
-            r["tok_go"], r["tok_mo"] = _lines(pre + "tok_go"), _lines(pre + "tok_mo")
+            r["tok_go"] = _lines(pre + "tok_go")
+            if "model_lexer" in tools:
+                rcs.append(_pipe([tools["lexobs"], "lines-in"], hx, pre + "runes"))
+                rcs.append(_pipe([tools["model_lexer"]], pre + "runes", pre + "tok_mo"))
+                r["tok_mo"] = _lines(pre + "tok_mo")
         if "past" in want:
             rcs.append(_pipe([tools["astobs"], "lines", "past"], hx, pre + "past_go"))
             rcs.append(_pipe([tools["astobs"], "lines", "runes"], hx, pre + "runes2"))
